@@ -18,7 +18,7 @@ from harness.c11 import valid_date
 
 BOUNDS = {
     "quick": {"rows": 2, "header layouts": 7, "cells": "every numeric cell symbolic; obs cells may be non-numeric / NaN / -999"},
-    "thorough": {"rows": 3, "header layouts": 7, "cells": "same"},
+    "thorough": {"rows": "2 (all 7 layouts) and 3 (layouts shuffled, metadata, noloc)", "header layouts": 7, "cells": "same"},
 }
 ASSUMPTIONS = ["coordinate and location-metadata cells are numeric and not the literal -999; obs cells keep every missing-value "
                "encoding (non-numeric, NaN, -999), the other data cells are ordinary numbers",
@@ -64,6 +64,9 @@ LAYOUTS = [
 ]
 
 
+ROWS3 = ("shuffled", "metadata", "noloc")
+
+
 def make_cell(S, col, r):
     """(token, value, bad) for column `col` of row r."""
     name = "%s[%d]" % (col, r)
@@ -105,12 +108,14 @@ def cleaned(S, v, bad):
     return S.ite(S.or_(bad, S.isnan(v), v == -999), float("nan"), v)
 
 
-def h_text(rows):
+def h_text(rows, only=None):
+    menu = [l for l in LAYOUTS if only is None or l[0] in only]
+
     def fn(S):
         inp = load.modules["verif.input"]
         S.messages_may_format_numbers()      # the conflicting-metadata warning formats lat/lon/elev with %f
-        li = S.choose("layout", len(LAYOUTS))
-        lname, header, meta = LAYOUTS[li]
+        li = S.choose("layout", len(menu))
+        lname, header, meta = menu[li]
         cells = []          # per row: dict col -> (token, value, bad)
         for r in range(rows):
             cells.append({col: make_cell(S, col, r) for col in header})
@@ -240,7 +245,10 @@ def h_text(rows):
             S.prove("field-shape", arr is not None and tuple(arr.shape) == shape, detail="%s/%s" % (lname, col))
             if arr is None or tuple(arr.shape) != shape:
                 continue
-            S.observe(col, arr)
+            # the order of the locations of a Text input is that of a set of Location objects (hash order):
+            # observe the array in the order in which the ids first appear in the rows
+            perm = [loc_index(r) for r in first_rows] if Id[0] is not None else list(range(shape[2]))
+            S.observe(col, [arr[d, o, s] for d in range(shape[0]) for o in range(shape[1]) for s in perm if s is not None])
             for d in range(shape[0]):
                 for o in range(shape[1]):
                     for s in range(shape[2]):
@@ -283,5 +291,7 @@ def _isnum(s):
 
 
 def harnesses(tier):
-    rows = 3 if tier == "thorough" else 2
-    return [Harness("text", h_text(rows), "Text.__init__ on %d symbolic rows x 7 header layouts" % rows)]
+    hs = [Harness("text", h_text(2), "Text.__init__ on 2 symbolic rows x 7 header layouts")]
+    if tier == "thorough":
+        hs.append(Harness("text.rows3", h_text(3, ROWS3), "Text.__init__ on 3 symbolic rows x %d header layouts" % len(ROWS3)))
+    return hs
